@@ -77,7 +77,8 @@ class C26(Prop):
                       st.text(alphabet='"\\/\n\t\r\b\f\x00\x1f ab\u2028\'', min_size=1, max_size=6),
                       st.sampled_from(['a"b', 'back\\slash', 'tab\\there', 'new\nline', '\\', '"', '\\"', '\\u0041',
                                        '%s', '{}', '{0}', '%(x)s']))
-    single = st.fixed_dictionaries({"name": names, "payload": json_payload,
+    # (a bare signal - no payload at all - is the most common event there is)
+    single = st.fixed_dictionaries({"name": names, "payload": st.one_of(st.none(), json_payload, json_payload, json_payload),
                                     "foreign": st.integers(0, 2).map(lambda i: i == 0)})
     # several threads encode and decode their own events at the same time (a bridge that serialises
     # from more than one active object): every thread gets its own event back
